@@ -10,6 +10,7 @@ import PyttbModel.Lemmas.Samplers
 import PyttbModel.Lemmas.Optim
 import PyttbModel.Lemmas.OptimVec
 import PyttbModel.Lemmas.C13Witness
+import PyttbModel.Props.C13Setup
 import Mathlib.Data.Rat.Floor
 namespace Pyttb
 open Samp Opt
